@@ -5,7 +5,9 @@ import (
 	"errors"
 	"fmt"
 	"math"
+	"sort"
 	"sync"
+	"sync/atomic"
 	"time"
 	"unsafe"
 
@@ -296,6 +298,67 @@ func poolScenarioX(withNew bool, idle int, switched bool, progs []string, bound,
 	}
 }
 
+// uncomparableCAS: an AtomicValue[any] holding a slice; CompareAndSwap with an `old` of the same
+// uncomparable dynamic type panics inside the comparison (sync/atomic.Value does) and the caller recovers.
+// Whatever the call did before it panicked, the value must stay usable: later Load/Store/Swap/CAS of
+// both threads return (nothing left locked), and Load never returns something that was not stored.
+func uncomparableCAS() schk.Scenario {
+	type urec struct {
+		v        sync2.AtomicValue[any]
+		panicked atomic.Bool
+		loads    []string
+		done     [2]bool
+	}
+	return schk.Scenario{
+		Name: "AtomicValue[any]/CompareAndSwap on uncomparable values panics, is recovered, and the value is used again", Bound: -1, RaceBound: 1,
+		Body: func(s *vrt.Sched) any {
+			r := &urec{}
+			r.v.Store([]int{1})
+			var mu sync.Mutex // harness-level: the log
+			log := func(x any) { mu.Lock(); r.loads = append(r.loads, fmt.Sprint(x)); mu.Unlock() }
+			// (sync/atomic.Value wants one dynamic type for ever: every value is a []int)
+			cas := func(old, new []int) {
+				defer func() {
+					if recover() != nil {
+						r.panicked.Store(true)
+					}
+				}()
+				r.v.CompareAndSwap(old, new)
+			}
+			s.Spawn("T0", func() {
+				cas([]int{1}, []int{7})
+				log(r.v.Load())
+				r.v.Store([]int{5})
+				log(r.v.Load())
+				r.done[0] = true
+			})
+			s.Spawn("T1", func() {
+				log(r.v.Load())
+				log(r.v.Swap([]int{2}))
+				cas([]int{2}, []int{3})
+				log(r.v.Load())
+				r.done[1] = true
+			})
+			return r
+		},
+		Check: func(x *vrt.Exec, obs any) (*schk.Fail, string) {
+			r := obs.(*urec)
+			if x.Deadlock || !r.done[0] || !r.done[1] {
+				return schk.Failf("blocked-after-recovered-panic", "after a CompareAndSwap whose comparison panicked (recovered by the caller: %v) the threads did not finish (%v): %v", r.panicked.Load(), r.done, x.Blocked), ""
+			}
+			for _, l := range r.loads {
+				switch l {
+				case "[1]", "[2]", "[3]", "[5]", "[7]":
+				default:
+					return schk.Failf("invented-value", "Load/Swap returned %q, which was never stored", l), ""
+				}
+			}
+			sort.Strings(r.loads)
+			return nil, fmt.Sprint(r.panicked.Load(), r.loads)
+		},
+	}
+}
+
 // isolation: two AtomicValues and two Pools used by two threads, one object each. Whatever one
 // thread does to its own objects must not show in the other's (state shared between instances).
 func isolationScenario() schk.Scenario {
@@ -509,7 +572,7 @@ func main() {
 			scs = append(scs, crowdedPool(true, idle, pp, ev.Pick(r, 1, 2), 1))
 		}
 	}
-	scs = append(scs, isolationScenario(), ifacePoolScenario(true), ifacePoolScenario(false))
+	scs = append(scs, isolationScenario(), ifacePoolScenario(true), ifacePoolScenario(false), uncomparableCAS())
 	schk.WorkerExtra = func() map[string]int64 {
 		return map[string]int64{"distinct_histories_judged_by_porcupine": int64(lin.Distinct())}
 	}
